@@ -12,57 +12,76 @@ open BM
 
 /-- The padding is the unique number of bits in 0…7 that reaches a byte boundary. -/
 theorem padLen_spec (n p : Nat) : (p < 8 ∧ (n + p) % 8 = 0) ↔ p = padLen n := by
-  sorry
+  unfold padLen; omega
 
 /-- `tobytes()` has ⌈n/8⌉ bytes … -/
 theorem toBytes_length (l : Bits) : (toBytes l).length = (l.length + 7) / 8 := by
-  sorry
+  exact toBytes_length' l
 
 /-- … each of them a byte … -/
 theorem toBytes_lt_256 (l : Bits) : ∀ b ∈ toBytes l, b < 256 := by
-  sorry
+  exact toBytes_lt_256' l
 
 /-- … and their bits are the input followed by `padLen` zero bits and nothing else. -/
 theorem toBytes_prefix_and_zero_pad (l : Bits) :
     bytesToBits (toBytes l) = l ++ List.replicate (padLen l.length) false := by
-  sorry
+  rw [bytesToBits_toBytes]; rfl
 
 /-- ALG = SPEC: `bitarray.tobytes()` as modelled (byte at a time, last byte zero-filled) is `toBytes`. -/
 theorem baToBytes_eq_toBytes (l : Bits) : baToBytes l = toBytes l := by
-  sorry
+  exact baToBytes_eq l
 
 /-- `BitStore.tobytes` is `toBytes` of the object's bits — also when `modified_length` limits a mapped buffer. -/
 theorem store_tobytes (s : Store) : s.tobytes = toBytes s.bin := by
-  sorry
+  exact tobytes_eq s
 
 /-- `len(s)` is the number of bits `s.bin` shows. -/
 theorem store_len (s : Store) (h : s.WF) : s.len = s.bin.length := by
-  sorry
+  rw [wf_len s h, wf_bin s h]
 
 /-- An in-memory object is its bits. -/
 theorem mem_bin (l : Bits) : (Store.mem l).bin = l := by
-  sorry
+  exact bin_of_none _ rfl
 
 /-! ### the `bytes` property equals tobytes() for whole-byte lengths and refuses the others -/
 
 theorem bytesProp_iff (s : Store) (h : s.WF) (bs : Bytes) :
     bytesProp s = .ok bs ↔ (s.bin.length % 8 = 0 ∧ bs = toBytes s.bin) := by
-  sorry
+  unfold bytesProp
+  rw [wf_len s h, ← wf_bin s h, tobytes_eq]
+  by_cases h8 : s.bin.length % 8 = 0
+  · simp [h8, eq_comm]
+  · simp [h8]
 
 theorem bytesProp_err_iff (s : Store) (h : s.WF) :
     (∃ e, bytesProp s = .error e) ↔ s.bin.length % 8 ≠ 0 := by
-  sorry
+  unfold bytesProp
+  rw [wf_len s h, ← wf_bin s h]
+  by_cases h8 : s.bin.length % 8 = 0
+  · simp [h8]
+  · simp [h8]
 
 /-! ### lossless: bytes → bits → bytes and bits → bytes → bits -/
 
 /-- Any byte string survives `frombytes` then `tobytes`. -/
 theorem toBytes_bytesToBits (bs : Bytes) (h : ∀ b ∈ bs, b < 256) : toBytes (bytesToBits bs) = bs := by
-  sorry
+  rw [toBytes_of_dvd _ (by simp), chunks8_bytesToBits bs h]
 
 /-- Reading `tobytes()` back with `length = len(l)` recovers `l` — through the `bytes=` keyword … -/
 theorem fromBytes_toBytes (cls : Cls) (l : Bits) (off : Option Int) (hoff : off = none ∨ off = some 0) :
     (construct cls .bytes (toBytes l) (some (l.length : Int)) off).map Store.bin = .ok l := by
-  sorry
+  have hv : validWindow (8 * (toBytes l).length) off (some (l.length : Int)) = true := by
+    rcases hoff with rfl | rfl
+    · exact valid_toBytes l
+    · have := valid_toBytes l
+      rw [validWindow_iff] at this ⊢
+      simpa [offD, lenD] using this
+  rw [construct_valid_bin cls .bytes _ off _ (by intro hk; cases hk) hv]
+  rcases hoff with rfl | rfl
+  · rw [readSpec_toBytes]
+  · have := readSpec_toBytes l
+    rw [readSpec_def] at this ⊢
+    simpa [offD, lenD] using this
 
 /-! ### reading back a window: exactly `drop offset` / `take length` of the source bits -/
 
@@ -70,20 +89,24 @@ theorem fromBytes_toBytes (cls : Cls) (l : Bits) (off : Option Int) (hoff : off 
 theorem readSpec_length (data : Bytes) (off len : Option Int)
     (h : validWindow (8 * data.length) off len = true) :
     ((readSpec data off len).length : Int) = lenD (8 * data.length) off len := by
-  sorry
+  rw [validWindow_iff] at h
+  obtain ⟨h1, h2, h3⟩ := h
+  rw [readSpec_def]
+  simp only [List.length_take, List.length_drop, bytesToBits_length]
+  omega
 
 /-- `cls(bytes=data, offset=off, length=len)`. -/
 theorem window_eq_drop_take_bytes (cls : Cls) (data : Bytes) (off len : Option Int)
     (h : validWindow (8 * data.length) off len = true) :
     (construct cls .bytes data len off).map Store.bin = .ok (readSpec data off len) := by
-  sorry
+  exact construct_valid_bin cls .bytes data off len (by intro hk; cases hk) h
 
 /-- `cls(io.BytesIO(data), offset=off, length=len)`: the `divmod(offset, 8)` / `bytelength` arithmetic selects
     a byte range that contains the window, and the final slice is the window. -/
 theorem window_eq_drop_take_bytesio (cls : Cls) (data : Bytes) (off len : Option Int)
     (h : validWindow (8 * data.length) off len = true) :
     (construct cls .bytesio data len off).map Store.bin = .ok (readSpec data off len) := by
-  sorry
+  exact construct_valid_bin cls .bytesio data off len (by intro hk; cases hk) h
 
 /-- `cls(filename=…, offset=off, length=len)` / `cls(open(…,'rb'), …)` for a file that is not empty
     (both `_setfile` branches, and the copy a mutable class takes). Full statement without `hne` is false:
@@ -92,26 +115,26 @@ theorem window_eq_drop_take_file_partial (cls : Cls) (data : Bytes) (off len : O
     (hne : data ≠ [])
     (h : validWindow (8 * data.length) off len = true) :
     (construct cls .file data len off).map Store.bin = .ok (readSpec data off len) := by
-  sorry
+  exact construct_valid_bin cls .file data off len (fun _ => hne) h
 
 /-- Known deviation (region `file_empty`): the only window of an empty file is valid and empty, but the code
     raises (mmap cannot map an empty file). -/
 theorem file_empty_witness :
     validWindow (8 * ([] : Bytes).length) none none = true ∧ readSpec [] none none = [] ∧
     construct .bits .file [] none none = .error .value := by
-  sorry
+  decide
 
 /-- Whatever source it was read from, an object is well formed, so the serialisation theorems apply to it. -/
 theorem construct_wf (cls : Cls) (k : Src) (data : Bytes) (off len : Option Int) (s : Store)
     (h : construct cls k data len off = .ok s) : s.WF := by
-  sorry
+  exact construct_wf' cls k data off len s h
 
 /-! ### tofile writes exactly tobytes(), for every length and every whole-byte chunk size -/
 
 /-- Every chunk but the last is whole bytes, so the per-chunk padding never lands inside the data. -/
 theorem tofile_eq_toBytes (chunk : Nat) (s : Store) (hwf : s.WF) (h8 : 8 ∣ chunk) (hpos : 0 < chunk) :
     tofile chunk s = .ok (toBytes s.bin) := by
-  sorry
+  exact tofile_eq chunk s hwf (by omega) hpos
 
 /-- GENERATED obligation: the chunk size in the working tree (re-extracted on every run) is a positive
     multiple of 8. -/
@@ -125,7 +148,7 @@ theorem tofileDefault_eq_toBytes (s : Store) (hwf : s.WF) : tofileDefault s = .o
 /-- The pieces `cut` yields are the object's bits in order (nothing lost, nothing repeated). -/
 theorem cut_flatten (chunk : Nat) (s : Store) (hwf : s.WF) (hpos : 0 < chunk) (cs : List Store)
     (h : cut s chunk = .ok cs) : (cs.map Store.bin).flatten = s.bin := by
-  sorry
+  exact cut_flatten_eq chunk s hwf hpos cs h
 
 /-- Write with `tofile`, read back `length = len(l)` from any kind of source: the original bits
     (for a file source the written file must not be empty — region `file_empty`). -/
@@ -133,16 +156,16 @@ theorem roundtrip_partial (cls : Cls) (k : Src) (chunk : Nat) (l : Bits) (h8 : 8
     (hne : k = .file → l ≠ []) :
     (tofile chunk (Store.mem l) >>= fun w =>
       (construct cls k w (some (l.length : Int)) none).map Store.bin) = .ok l := by
-  sorry
+  exact roundtrip_eq cls k chunk l (by omega) hpos hne
 
 /-! ### Array: tobytes / tofile serialise the data (items and trailing bits); fromfile appends whole items -/
 
 theorem arrayTobytes_eq (data : Bits) : arrayTobytes data = toBytes data := by
-  sorry
+  exact arrayTobytes_eq' data
 
 theorem arrayTofile_eq (chunk : Nat) (data : Bits) (h8 : 8 ∣ chunk) (hpos : 0 < chunk) :
     arrayTofile chunk data = .ok (toBytes data) := by
-  sorry
+  exact arrayTofile_eq' chunk data (by omega) hpos
 
 /-- `fromfile(f)` appends every whole item of the file, `fromfile(f, n)` the first `n` — nothing else.
     (An open file goes through `_setfile`, hence `hfile`: region `file_empty`.) -/
@@ -153,32 +176,37 @@ theorem arrayFromfile_spec_partial (data : Bits) (isz : Nat) (file : Bytes) (fk 
       .ok (data ++ (bytesToBits file).take ((match n with
                                               | none => 8 * file.length / isz
                                               | some k => k.toNat) * isz)) := by
-  sorry
+  exact arrayFromfile_eq data isz file fk n hisz htr hfile hn
 
 /-- Trailing bits make `fromfile` refuse. -/
 theorem arrayFromfile_trailing (data : Bits) (isz : Nat) (file : Bytes) (fk : FKind) (n : Option Int)
     (hisz : 0 < isz) (htr : data.length % isz ≠ 0) :
     arrayFromfile data isz file fk n = .error .value := by
-  sorry
+  exact arrayFromfile_trailing' data isz file fk n hisz htr
 
 /-- Asking for more items than the file holds is an error. -/
 theorem arrayFromfile_short (data : Bits) (isz : Nat) (file : Bytes) (fk : FKind) (k : Int)
     (hisz : 0 < isz) (htr : data.length % isz = 0) (hk : ((8 * file.length / isz : Nat) : Int) < k) :
     ∃ e, arrayFromfile data isz file fk (some k) = .error e := by
-  sorry
+  exact arrayFromfile_short' data isz file fk k hisz htr hk
 
 /-- Array round trip: what `tofile` wrote reads back as the whole items of the zero-padded data. -/
 theorem array_roundtrip_partial (data : Bits) (isz chunk : Nat) (fk : FKind) (h8 : 8 ∣ chunk) (hpos : 0 < chunk)
     (hisz : 0 < isz) (hne : fk = .handle → data ≠ []) :
     (arrayTofile chunk data >>= fun w => arrayFromfile [] isz w fk none) =
       .ok ((padded data).take ((padded data).length / isz * isz)) := by
-  sorry
+  exact array_roundtrip_eq data isz chunk fk (by omega) hpos hisz hne
 
 /-- … which is the data itself when it is whole bytes and whole items. -/
 theorem array_roundtrip_exact_partial (data : Bits) (isz chunk : Nat) (fk : FKind) (h8 : 8 ∣ chunk) (hpos : 0 < chunk)
     (hisz : 0 < isz) (hne : fk = .handle → data ≠ []) (hb : data.length % 8 = 0) (hi : data.length % isz = 0) :
     (arrayTofile chunk data >>= fun w => arrayFromfile [] isz w fk none) = .ok data := by
-  sorry
+  rw [array_roundtrip_eq data isz chunk fk (by omega) hpos hisz hne, padded_of_dvd data hb]
+  have : data.length / isz * isz = data.length := by
+    have := Nat.div_add_mod data.length isz
+    rw [hi, Nat.add_zero, Nat.mul_comm] at this
+    exact this
+  rw [this, List.take_length]
 
 /-! ### non-vacuity: the hypotheses are met by concrete non-trivial values -/
 
